@@ -40,6 +40,10 @@ def configs(tier):
             fixed = [a0[0], 3, a0[1], 0, a0[2], 0]
             out.append(dict(key=f"{'soft' if soft else 'strict'},coinciding-twin-units,a0-slots={a0}", sizes=[2, 1], k=3, soft=soft, fixed=fixed, coincide=True, cost=50))
         out.append(dict(key=f"{'soft' if soft else 'strict'},coinciding-twin-units,valid", sizes=[2, 1], k=2, soft=soft, fixed=[1, 3, 2, 0], coincide=True, cost=50))
+    # unitary alignments that have no slot at all for one annotator of the continuum (built before that annotator joined, say): its units are missing
+    for soft in (False, True):
+        out.append(dict(key=f"{'soft' if soft else 'strict'},n-tuples-without-a-slot-for-the-last-annotator", sizes=[1, 1, 1], k=1, soft=soft, fixed=[1, 2, 3], drop_columns=[2], cost=20))
+        out.append(dict(key=f"{'soft' if soft else 'strict'},n-tuples-without-a-slot-for-the-first-annotator", sizes=[1, 1, 1], k=1, soft=soft, fixed=[1, 2, 3], drop_columns=[0], cost=20))
     if tier == "thorough":
         shapes += [((1, 1), 3), ((2, 2), 1), ((2, 2), 2)]
     for sizes, k in shapes:
@@ -110,6 +114,10 @@ def harness(cfg, ns):
                     desc.append((u, a, "unit", o))
                 tup.append((ANN[a], unit))
                 slots.append((ANN[a], st, en, unit.annotation))
+            if cfg.get("drop_columns"):
+                dropped = {ANN[a] for a in cfg["drop_columns"]}
+                tup = [x for x in tup if x[0] not in dropped]
+                slots = [x for x in slots if x[0] not in dropped]
             uas.append(al.UnitaryAlignment(tup))
         ctx.notes["inputs"] = inputs
 
@@ -120,7 +128,7 @@ def harness(cfg, ns):
                     d.append([x[0], x[1], "fresh", common.frs(mval(m, x[3])), common.frs(mval(m, x[4]))])
                 else:
                     d.append(list(x))
-            return dict(kind="check", history=bool(cfg.get("history")), soft=soft, sizes=list(sizes), k=k,
+            return dict(kind="check", history=bool(cfg.get("history")), soft=soft, sizes=list(sizes), k=k, drop_columns=cfg.get("drop_columns"),
                         units=[[ANN[a], common.frs(mval(m, v["start"])), common.frs(mval(m, v["end"])), v.get("label", "x")] for (a, j), v in sorted(info.items())],
                         slots=d)
         ctx.notes["realize"] = rz
@@ -260,6 +268,9 @@ def replay(case):
             tups[u][a] = (ANN[a], pa.Unit(Segment(F(x[3]), F(x[4])), "x"))
         else:
             tups[u][a] = (ANN[a], cunits[x[3]][1])
+    if case.get("drop_columns"):
+        dropped = {ANN[a] for a in case["drop_columns"]}
+        tups = [[x for x in t if x is not None and x[0] not in dropped] for t in tups]
     uas = [UnitaryAlignment(t) for t in tups]
     cls = SoftAlignment if case["soft"] else Alignment
 
